@@ -459,6 +459,24 @@ func (f *Fixture) ResetConfig(w *faultkv.KV) error {
 	if err := rm.SetRule(def); err != nil {
 		return fmt.Errorf("reset default rule: %v", err)
 	}
+	// SetRule writes only what differs from what the manager serves; a stored record that differs from the served
+	// rule (left by a case that found such a divergence) would survive: write the record itself too
+	if r := rm.GetRule("pd", "default"); r != nil {
+		raw := core.NewStorage(f.clusterKV.Base())
+		if err := raw.SaveRule(r.StoreKey(), r); err != nil {
+			return fmt.Errorf("reset stored default rule: %v", err)
+		}
+		// records of rules that are not served (left by a multi-rule update that failed half way) go as well
+		var stale []string
+		raw.LoadRules(func(k, _ string) {
+			if k != r.StoreKey() {
+				stale = append(stale, k)
+			}
+		})
+		for _, k := range stale {
+			raw.DeleteRule(k)
+		}
+	}
 	// (the plain default rule first: it covers the whole key space, so the others can go in any order)
 	for _, r := range rm.GetAllRules() {
 		if !(r.GroupID == "pd" && r.ID == "default") {
